@@ -166,6 +166,15 @@ func c04exec(c *Ctx, st *c04state, op Op, rng *rand.Rand) Ev {
 			gk = []int{k, k + 1, k - 1, 0}
 			if rng != nil {
 				gk = append(gk, rng.Intn(12))
+				// vary what was looked up last before the next call: nothing at all, or one present key
+				switch rng.Intn(4) {
+				case 0:
+					gk = []int{}
+				case 1:
+					if ks := mp.Keys(); len(ks) > 0 && len(ks) < 400 {
+						gk = []int{ks[rng.Intn(len(ks))]}
+					}
+				}
 			}
 		}
 		gl := make([][4]int, 0, len(gk))
